@@ -166,7 +166,7 @@ def check_static(case, workdir):
     cmirun.write_case(workdir, case)
     run = cmirun.run(workdir, ["--params", "params.yml", "--task-based-rhd", "--threads", "1",
                                "--number-of-steps", "1"],
-                     {"CMI_VERIF_TABLES": "exit"}, timeout=600, cpu_limit=60)
+                     {"CMI_VERIF_TABLES": "exit"}, timeout=900, cpu_limit=180)
     if run["timeout"] and not run["cpu_exceeded"]:
         r.inconclusive = "wall-clock limit hit without exhausting the CPU budget"
         return r
@@ -279,7 +279,7 @@ def check_dynamic(case, workdir):
         env["CMI_VERIF_JITTER"] = case["jitter"]
     run = cmirun.run(workdir, ["--params", "params.yml", "--task-based-rhd", "--threads",
                                str(case["threads"]), "--number-of-steps", str(nsteps)],
-                     env, timeout=600, cpu_limit=60)
+                     env, timeout=900, cpu_limit=180)
     n = case["nsub"][0] * case["nsub"][1] * case["nsub"][2]
     if case["threads"] >= 2:
         r.label("multi-threaded")
@@ -289,7 +289,7 @@ def check_dynamic(case, workdir):
         in_step = "Starting hydro step" in run["out"]
         if in_step:
             r.schedule_dependent = case["threads"] > 1
-            return r.fail("hydro step did not terminate: 60 s of CPU time used up (a normal run needs < 1 s); last output: %s" % (
+            return r.fail("hydro step did not terminate: 180 s of CPU time used up (a normal run needs < 1 s); last output: %s" % (
                 run["out"][-200:].replace("\n", " | ")))
         r.inconclusive = "CPU budget used up outside a hydro step"
         return r
